@@ -151,9 +151,11 @@ func (ch *c20Chain) runCase(run int, src string, kase *c20Case) map[string]inter
 			ev["asked"] = true
 		}
 		ev["sent"] = sentLB
+		ev["changed"] = !c20SameJSON(sentLB, ch.absLB(ch.lightBlock(a.H)))
 	} else {
 		ev["asked"] = be.calls > 0
 		ev["sent"] = be.sent
+		ev["changed"] = !c20SameJSON(be.sent, be.honest)
 	}
 	ev["relayed"] = err == nil
 	ev["stage"] = c20Stage(err)
@@ -477,3 +479,11 @@ var _ = fmt.Sprintf
 var _ light.Option
 
 type c20HarnessErr struct{ err error }
+
+func (e c20HarnessErr) String() string { return "harness: " + e.err.Error() }
+
+func c20SameJSON(a, b interface{}) bool {
+	x, _ := json.Marshal(a)
+	y, _ := json.Marshal(b)
+	return string(x) == string(y)
+}
